@@ -5,6 +5,9 @@ from .common import Ob
 def _run(job):
     name, fn, args = job
     try:
+        if os.environ.get('DV_TIMING'):
+            import time, sys
+            t0 = time.time(); print(f'[start] {name} {time.strftime("%H:%M:%S")} pid {os.getpid()}', file=sys.stderr); r = fn(*args); print(f'[timing] {time.time() - t0:7.1f}s  {name}  (ended {time.strftime("%H:%M:%S")}, pid {os.getpid()})', file=sys.stderr); return r
         return fn(*args)
     except Exception as e:
         return [Ob(f'{name}', 'inconclusive', 'exception: ' + ''.join(traceback.format_exception_only(type(e), e)).strip() + ' @ ' + traceback.format_exc()[-600:], 0, 'driver')]
